@@ -16,6 +16,14 @@
 (*     the seek to SeekPos, every read() must be explained as the            *)
 (*     environment step Fill(k) (Eof for k = 0) at exactly the moment the    *)
 (*     machine needs bytes, nothing left over; error kinds; size_hint.       *)
+(*                                                                           *)
+(* cfg.cls = "big": closed-form huge family (a virtual file of up to 5*10^9  *)
+(* bases computed on demand by the harness, base(i) = "ACGTN"[i mod 5]).      *)
+(* cfg = [cls, name, w, t, lenhi, lenlo, R]; positions are pairs hi*R+lo;    *)
+(* st = [f, shi, slo, span]. The expected slice is BigExpected(slo, span)    *)
+(* (IndexedFastaMC.BigLemma: = Expected of the definition layer for small    *)
+(* parameters); `dump` events materialise small instances of the same        *)
+(* generator and are checked against FileOf. No io replay here.              *)
 EXTENDS IndexedFasta, TLC, Json, IOUtils
 
 Rec == ndJsonDeserialize(IOEnv.TRACE)
@@ -164,6 +172,36 @@ Exact(cfg, s, e) ==
       [] c.op = "read_iter" -> ReadIterExact(cfg, F, m, a, r)
       [] OTHER -> TRUE
 
+\* ---------------------------------------------------------- closed-form huge family
+IsBig(cfg) == cfg.cls = "big"
+BigSel0 == [f |-> 0, shi |-> 0, slo |-> 0, span |-> 0]
+BigValid(cfg, s) ==
+    s.f = 1 /\ PairLE(PairNorm(cfg.R, s.shi, s.slo + s.span), <<cfg.lenhi, cfg.lenlo>>)
+
+BigExplains(cfg, s, e) ==
+    LET c == e.c  r == e.r  a == e.c.a IN
+    CASE c.op = "dump" ->                       \* the generator, materialised at small size, is the layout
+           /\ r.st = "ok" /\ cfg.lenhi = 0
+           /\ LET rec == [name |-> cfg.name, desc |-> << >>, seq |-> BigSeq(cfg.lenlo), w |-> cfg.w, t |-> cfg.t]
+              IN  /\ r.file = FileOf(<<rec>>)
+                  /\ FaiOf(<<rec>>) = <<[name |-> cfg.name, len |-> cfg.lenlo, off |-> r.off, lb |-> r.lb, lby |-> r.lby]>>
+      [] c.op = "open" ->
+           /\ r.st = "ok" /\ cfg.R % BigPeriod = 0 /\ cfg.w >= 1 /\ cfg.t \in {1, 2} /\ cfg.lenlo < cfg.R
+           /\ r.n = 1 /\ r.lenhi = cfg.lenhi /\ r.lenlo = cfg.lenlo
+      [] c.op = "fetch" -> r.st = "ok" /\ r.ok = 1 /\ a.slo < cfg.R /\ a.span >= 0
+      [] c.op = "read" ->
+           /\ r.st = "ok"
+           /\ IF BigValid(cfg, s) THEN r.ok = 1 /\ r.seq = BigExpected(s.slo, s.span) ELSE r.ok = 0
+      [] c.op = "read_iter" ->
+           /\ r.st = "ok"
+           /\ IF BigValid(cfg, s)
+              THEN r.ok = 1 /\ r.capped = 0 /\ r.ierr = 0 /\ r.ended = 1 /\ r.items = BigExpected(s.slo, s.span)
+              ELSE r.ok = 0
+      [] OTHER -> FALSE
+
+BigAfter(s, e) ==
+    IF e.c.op = "fetch" THEN [f |-> 1, shi |-> e.c.a.shi, slo |-> e.c.a.slo, span |-> e.c.a.span] ELSE s
+
 After(cfg, s, e) ==
     LET c == e.c  a == e.c.a  F == Ctx(cfg)  m == Mach(s)
         m2 == CASE c.op = "fetch"         -> FetchName(F, m, a.name, a.start, a.stop)
@@ -175,15 +213,17 @@ After(cfg, s, e) ==
         THEN Sel(m2, e.r.ok = 0)                 \* Explains has fixed r.ok = (name / rid known)
         ELSE s                                   \* reads leave nothing behind but the selection
 
-Init == run \in 1..Len(Rec) /\ idx = 0 /\ st = Sel(MInit, FALSE) /\ ok = TRUE
+Init == /\ run \in 1..Len(Rec) /\ idx = 0 /\ ok = TRUE
+        /\ st = IF IsBig(Rec[run].cfg) THEN BigSel0 ELSE Sel(MInit, FALSE)
 Next ==
     /\ ok /\ idx < Len(Rec[run].ev)
     /\ LET e    == Rec[run].ev[idx + 1]
-           good == Explains(Rec[run].cfg, st, e)
+           cfg  == Rec[run].cfg
+           good == IF IsBig(cfg) THEN BigExplains(cfg, st, e) ELSE Explains(cfg, st, e)
        IN  /\ ok' = good
-           /\ st' = IF good THEN After(Rec[run].cfg, st, e) ELSE st
+           /\ st' = IF ~good THEN st ELSE IF IsBig(cfg) THEN BigAfter(st, e) ELSE After(cfg, st, e)
            /\ IF good
-              THEN (IF Exact(Rec[run].cfg, st, e) THEN TRUE ELSE PrintT(<<"DRIFT", run, idx + 1>>))
+              THEN (IF IsBig(cfg) \/ Exact(cfg, st, e) THEN TRUE ELSE PrintT(<<"DRIFT", run, idx + 1>>))
               ELSE PrintT(<<"REJECT", run, idx + 1>>)
     /\ idx' = idx + 1
     /\ UNCHANGED run
